@@ -125,6 +125,13 @@ def generate(ctx):
     for _ in range(ctx.budget(150, 4000)):
         kind = rng.choice(KINDS)
         cases.append(gen_rem(rng, kind, rng.choice(admissible_subsets(kind))))
+    # discovery dates inside the hour that a named timezone repeats when summer time ends (second pass:
+    # PEP 495 fold=1), half an hour and one second into it
+    for kind, inst in zip(KINDS + KINDS, (1635643800, 1636266600, 1617463800, 1635642001, 1667710800, 1572139800, 1603589400, 1636263001,
+                                          1635640200, 1636263000, 1617460200, 1667716199, 1667712599, 1603593000)):
+        c = gen_rem(rng, kind, rng.choice(admissible_subsets(kind)))
+        c["dt"] = {"u": inst * 10**6 + rng.choice([0, 1, 999999]), "off": rng.choice([0, 60, -300])}
+        cases.append(c)
     for _ in range(ctx.budget(200, 4000)):
         cases.append(gen_extid(rng))
     return cases
@@ -135,7 +142,13 @@ def build_rem(c, dt_override=None):
 
     ext = swhids.ExtendedSWHID.from_string(swhid_text(c["kind"], c["target"]))
     d = dt_override or c["dt"]
-    dt = (EPOCH + d["u"] * US).astimezone(datetime.timezone(datetime.timedelta(minutes=d["off"])))
+    if d.get("zone"):
+        import zoneinfo
+
+        # (astimezone sets `fold` on the second pass through a repeated hour)
+        dt = (EPOCH + d["u"] * US).astimezone(zoneinfo.ZoneInfo(d["zone"]))
+    else:
+        dt = (EPOCH + d["u"] * US).astimezone(datetime.timezone(datetime.timedelta(minutes=d["off"])))
     kw = {}
     tagof = {"snapshot": "snp", "release": "rel", "revision": "rev", "directory": "dir"}
     for k, v in c["ctx"].items():
@@ -263,7 +276,9 @@ def check_cases(ctx, cases):
             # same instant in another zone / another sub-second part: equal object and id
             u = case["dt"]["u"]
             sec = u // 10**6
-            for alt in ({"u": u, "off": -case["dt"]["off"]}, {"u": sec * 10**6, "off": 0}, {"u": sec * 10**6 + 999999, "off": 345}):
+            zones = ("Europe/Paris", "America/New_York", "Australia/Lord_Howe", "Asia/Kolkata", "America/St_Johns", "Pacific/Chatham")
+            for alt in ({"u": u, "off": -case["dt"]["off"]}, {"u": sec * 10**6, "off": 0}, {"u": sec * 10**6 + 999999, "off": 345},
+                        {"u": u, "zone": zones[sec % 6]}, {"u": u, "zone": zones[(sec + 1) % 6]}, {"u": sec * 10**6 + 5, "zone": zones[(sec + 2) % 6]}):
                 m2 = build_rem(case, alt)
                 if m2 != m or m2.id != m.id:
                     ctx.fail(case, "same UTC second written differently gives a different object/id", "date-not-through-second", {"alt": alt})
